@@ -20,8 +20,10 @@ func (p *Pool[T]) Get() T {
 		var x T
 		return x
 	}
-	p.pool.New = func() any { return p.New() }
-	return p.pool.Get().(T)
+	if x := p.pool.Get(); x != nil {
+		return x.(T)
+	}
+	return p.New()
 }
 
 // Put adds x to the pool.
